@@ -17,6 +17,7 @@ needles are region 1.  All of this is safe code: the load trace is empty.
 import MemchrModel.Driver.Util
 import MemchrModel.Model.ShiftOr
 import MemchrModel.Model.Pair
+import MemchrModel.Model.PairImpure
 
 namespace Memchr.Driver
 
@@ -58,6 +59,20 @@ def handleShiftOrPair (op : String) (args : List String) : Option String :=
     let i2 ← parseU8 i2
     let n : Slice := Slice.ofMem { region := 1, base := 0, bytes := nbytes }
     some (fmtRes fmtOptPair 1 (.ok (Pair.withIndices n i1 i2) {}))
+  | "pairimp", [mode, needle] => do
+    -- impure rankers: the state is the number of calls so far (`Model/PairImpure.lean`)
+    let nbytes ← parseHex needle
+    let n : Slice := Slice.ofMem { region := 1, base := 0, bytes := nbytes }
+    let rank ← (match mode with
+      | "up" => some (fun (k : Nat) (_ : UInt8) => (UInt8.ofNat (k % 256), k + 1))
+      | "down" => some (fun (k : Nat) (_ : UInt8) => (UInt8.ofNat ((255 + 256 - k % 256) % 256), k + 1))
+      | "alt" => some (fun (k : Nat) (_ : UInt8) => ((if k % 2 == 0 then 0 else 255 : UInt8), k + 1))
+      | "lcg" => some (fun (k : Nat) (b : UInt8) =>
+          (UInt8.ofNat ((((k % 2 ^ 32) * 1103515245 + 12345) % 2 ^ 32 / 2 ^ 16) % 256) ^^^ b, k + 1))
+      | _ => none)
+    match Pair.withRankerS n rank 0 {} with
+    | .fault e => some (fmtFault e)
+    | .ok (r, _) _ => some s!"ok {fmtOptPair r} steps=0 loads=-"
   | "pairreport", [needle, i1, i2] => do
     let nbytes ← parseHex needle
     let i1 ← parseU8 i1
